@@ -20,7 +20,8 @@ Workload (one case = a session of 6-13 steps, every step drawn from the rng):
              tight turn-arounds tx->rx and rx->tx.
   * rx_bad : a packet with one stuffed zero replaced by a one / removed (seven ones in a row),
              usually directly followed by a good packet (recovery).
-  * pulls  : term_select / dp_pulldown / dm_pulldown changes at arbitrary moments.
+  * pulls  : all eight term_select / dp_pulldown / dm_pulldown combinations once at the start of every case, then
+             changes at arbitrary moments.
   * quiet non-driving (op_mode 1, tx_valid low) phases with reception, chirp-like raw phases (op_mode 2,
     constant tx_data; nothing judged), and as last step of ~45 % of the cases op_mode 1 *with* tx_valid
     activity, or op_mode switched to 1 in the middle of a transmission.
@@ -40,13 +41,17 @@ Oracle (independent, from USB 2.0 ch. 7.1 and UTMI 1.05):
 Not judged: op_mode 2/3 behaviour, line_state / vbus outputs, the pulldown output when only one of the
 two pulldown requests is set, rx_error outside rx_active (luna's remover also counts the idle ones),
 receive activity while the PHY itself drives, jitter beyond 1 ns, content after a stuffing violation.
+Findings on the unchanged tree (findings/C25.md, known_findings.d/C25.json): op-mode constants swapped
+(drives in op_mode 1), pulldown request wired to the pullup pin, rx_error only a 48 MHz pulse and also raised at
+the EOP of good packets (remover never reset), transmit bit stuffer never reset (extra 0 bit after SYNC / lost
+second byte).  Their classifiers are narrow: exact wire image for the transmit one, "all samples equal
+dp|dm" for the pull-up, position in the last 12 cycles of rx_active for the EOP error, "a 48 MHz pulse existed
+in the packet's window" for the missed error.
 Deviation from the statement's letter, deliberate: USB 2.0 7.1.9 counts the SYNC's final one for
 stuffing.  luna's transmitter does not (its receiver does).  The two encodings only differ for a first
 byte xxx11111 (no legal PID); for those transmit packets either encoding is accepted and the case is
 counted as unjudged (`tx_first_byte_stuff_ambiguous`).  On receive the USB encoding is sent and judged.
 """
-import math
-
 from rv.ref import c25_line as L
 from rv.ref import usb2 as U
 
